@@ -169,6 +169,36 @@ inline void check_live(Cx& cx, std::string const& subject, std::string const& cl
     }
 }
 
+/// The explorer rebuilds states by replaying their history against a scratch Reporter (job name empty);
+/// whole-registry checks only make sense on a first execution, where exactly the operands are alive.
+inline bool first_execution(Cx const& cx) { return !cx.r.job.empty(); }
+
+/// retire() runs after the explorer may have appended a node (its case-description callback then refers to
+/// a relocated history), so end-of-life findings are reported with a self-contained case text.
+inline void drain_lifetimes_at_retire(Cx& cx, std::string const& subject, std::string const& cls, std::string const& kase)
+{
+    for (auto const& e : registry().take_errors()) {
+        cx.failed = true;
+        cx.r.violation("C03", subject, cat(cls, "/lifetime:", e), kase, e);
+    }
+}
+
+/// After a live-total mismatch was reported: drop every registry entry outside the given boxes (leaked
+/// temporaries), so that one leak is reported once and not by every later transition.
+inline void purge_outside(void const* lo1, void const* hi1, void const* lo2, void const* hi2)
+{
+    auto& slots = registry().slots;
+    for (auto it = slots.begin(); it != slots.end();) {
+        bool const in1 = it->first >= lo1 && it->first < hi1;
+        bool const in2 = lo2 != nullptr && it->first >= lo2 && it->first < hi2;
+        if (in1 || in2) {
+            ++it;
+        } else {
+            it = slots.erase(it);
+        }
+    }
+}
+
 template <typename A, typename B>
 bool ceq(Cx& cx, std::string const& prop, std::string const& subject, std::string const& cls, char const* what, A const& got, B const& want)
 {
@@ -213,6 +243,9 @@ struct Box {
     ~Box()
     {
         if (!dead) { v->~V(); }
+        // whatever a defective operation leaked inside this box was reported when it happened; it must not
+        // be seen again by later, unrelated transitions that reuse the address
+        registry().forget_range(lo(), hi());
     }
     void const* lo() const { return buf; }
     void const* hi() const { return buf + sizeof buf; }
